@@ -482,7 +482,7 @@ func generateOverlay(pk *packages.Package, fset *token.FileSet, cf *ContractFile
 				for _, id := range ids {
 					if id == "loopk" {
 						ps = append(ps, "loopk int")
-						cl.Locals = append(cl.Locals, LocalRef{Name: "loopk", Type: "int"})
+						cl.Locals = append(cl.Locals, LocalRef{Name: "loopk", ParamIdx: -1, Type: "int"})
 						continue
 					}
 					if id == "loopx" {
@@ -496,7 +496,7 @@ func generateOverlay(pk *packages.Package, fset *token.FileSet, cf *ContractFile
 						}
 						ts := types.TypeString(tv.Type, qual)
 						ps = append(ps, "loopx "+ts)
-						cl.Locals = append(cl.Locals, LocalRef{Name: "loopx", Type: ts})
+						cl.Locals = append(cl.Locals, LocalRef{Name: "loopx", ParamIdx: -1, Type: ts})
 						continue
 					}
 					if scope == nil {
@@ -507,18 +507,26 @@ func generateOverlay(pk *packages.Package, fset *token.FileSet, cf *ContractFile
 						if pv, ok := pobj.(*types.Var); ok {
 							ts := types.TypeString(pv.Type(), qual)
 							ps = append(ps, id+" "+ts)
-							cl.Locals = append(cl.Locals, LocalRef{Name: id, Entry: true, Type: ts, Pos: pv.Pos(), Decl: fset.Position(pv.Pos())})
+							cl.Locals = append(cl.Locals, LocalRef{Name: id, Entry: true, ParamIdx: -1, Type: ts, Pos: pv.Pos(), Decl: fset.Position(pv.Pos())})
 						}
 						continue
 					}
 					_, obj := scope.LookupParent(id, bodyPos)
 					v, ok := obj.(*types.Var)
+					// names of the contract header that are not (or no longer) visible in the source
+					// scope denote the entry values of the parameters, by position
+					hdrIdx, hdrType := c.headerParam(id)
+					if hdrIdx >= 0 && (!ok || v.Parent() == pk.Types.Scope() || !isParamOf(fd, pk, v)) {
+						ps = append(ps, id+" "+hdrType)
+						cl.Locals = append(cl.Locals, LocalRef{Name: id, Entry: true, ParamIdx: hdrIdx, Type: hdrType})
+						continue
+					}
 					if !ok || v.Parent() == pk.Types.Scope() || v.Parent() == types.Universe || v.Pkg() != pk.Types {
 						continue // package-level or not a variable
 					}
 					ts := types.TypeString(v.Type(), qual)
 					ps = append(ps, id+" "+ts)
-					cl.Locals = append(cl.Locals, LocalRef{Name: id, Type: ts, Pos: v.Pos(), Decl: fset.Position(v.Pos())})
+					cl.Locals = append(cl.Locals, LocalRef{Name: id, ParamIdx: -1, Type: ts, Pos: v.Pos(), Decl: fset.Position(v.Pos())})
 				}
 				k := "inv"
 				ret := "bool"
@@ -581,6 +589,42 @@ func (c *Contract) sigParams(post bool) string {
 		}
 	}
 	return strings.Join(ps, ", ")
+}
+
+// headerParam: index (receiver first) and type text of a name introduced by the contract header.
+func (c *Contract) headerParam(name string) (int, string) {
+	i := 0
+	if c.RecvType != "" {
+		if c.RecvName == name {
+			return 0, c.RecvType
+		}
+		i = 1
+	}
+	for _, p := range c.Params {
+		if p.Name == name {
+			return i, p.Type
+		}
+		i++
+	}
+	return -1, ""
+}
+
+// isParamOf: v is a parameter or the receiver of fd.
+func isParamOf(fd *ast.FuncDecl, pk *packages.Package, v *types.Var) bool {
+	check := func(fl *ast.FieldList) bool {
+		if fl == nil {
+			return false
+		}
+		for _, f := range fl.List {
+			for _, n := range f.Names {
+				if pk.TypesInfo.Defs[n] == v {
+					return true
+				}
+			}
+		}
+		return false
+	}
+	return check(fd.Recv) || check(fd.Type.Params)
 }
 
 func desugarStmts(s string, ot func(string) (string, error)) (string, error) {
